@@ -269,12 +269,16 @@ def runOps (before : List (Name × Nat)) (link : Option (Name × Name)) (after :
 
 def names (ws : List (Name × Nat)) : List Name := ws.map (·.1)
 
-/-- hypothesis of `rerun_idempotent`: the name that becomes a symlink is not also the name of a
-written file (it is `<root>.html`, while the root's page goes to `index.html`) -/
+/-- hypothesis of `rerun_idempotent`.  The name `s` that becomes a symlink (`<root>.html`) is not
+written after the link is made; and either it is not written before either (the root's page goes
+to `index.html`), or — a root module named like a summary page, whose page a re-run writes
+THROUGH the link the previous run left — the link's target `t` is rewritten afterwards and is
+not `s` itself. -/
 def wfRun (before : List (Name × Nat)) (link : Option (Name × Name)) (after : List (Name × Nat)) : Bool :=
   match link with
   | none => true
-  | some (s, _) => !(names before).contains s && !(names after).contains s
+  | some (s, t) =>
+    !(names after).contains s && (!(names before).contains s || ((names after).contains t && s != t))
 
 /-- longest prefix of plain writes -/
 def takeWrites : List Op → List (Name × Nat) × List Op
